@@ -113,6 +113,28 @@ impl C04 {
         };
         sh.count("declarations_and_definitions", ndefs as u64);
         let last = entry + nsteps;
+        // the script must not leave anything free that the system determines: the only declared
+        // constants are inputs (every step), states at the entry step (all of them for a symbolic
+        // start, those without init for step 0), constant states (one symbol) and states without a
+        // next function; everything else has to be a definition
+        for (name, _) in scope.order.iter() {
+            let Some(Binding::Declared(_)) = scope.lookup(name) else { continue };
+            let (base, step) = match name.rsplit_once('@') {
+                Some((b, k)) if k.parse::<u64>().is_ok() => (b.to_string(), Some(k.parse::<u64>().unwrap())),
+                _ => (name.clone(), None),
+            };
+            if let Some(st) = sys.states.iter().find(|s| ctx.get_symbol_name(s.symbol) == Some(base.as_str())) {
+                let allowed = match step {
+                    None => st.is_const() && (entry > 0 || st.init.is_none()),
+                    Some(k) => st.next.is_none() || (k == entry && (entry > 0 || st.init.is_none())),
+                };
+                if !allowed {
+                    let why = if step.is_none() { "a constant state with an init value is declared free instead of being defined by its init expression".to_string() } else { format!("state `{base}` is declared as a free constant at step {} although the system determines its value there", step.unwrap()) };
+                    fail(sh, format!("C04|unconstrained-state|entry{entry}|{}", if st.is_const() { "const-state" } else { "state" }), format!("`{name}`: {why}"));
+                    return;
+                }
+            }
+        }
         let all_syms: Vec<ExprRef> = sys.states.iter().map(|s| s.symbol).chain(sys.inputs.iter().copied()).collect();
         let nexec = sh.tier.pick(12, 60);
         for _ in 0..nexec {
